@@ -123,20 +123,31 @@ def doc_traits(doc):
     walk(doc['raw'], f)
     return tr
 
-KEY_OF_CLASS = {   # failure class (= finding key) -> trait that must be present in the (shrunk) document
-    'dump-multiline-eval': 'escaped-string',
-    'dump-safe-elided': 'safe-equals-source-default',
-    'dump-explicit-default-delete': 'explicit-default-delete',
-    'dump-default-under-parent': 'default-flag',
-    'dump-kind-without-metadata-form': 'nomdform',
-    'dump-shortcut-tag-not-on-stack': 'shortcut-stack',
-}
-# D17c (!clear), D17d (!path without reference point), D17h (f-string dumped as !eval) and D17j (!safe) are repaired in /repo:
-# their failure classes (dump-clear-crash, dump-path-noref, dump-fstr-as-eval, dump-safe-tag) are ordinary violations again.
+# All dumper findings D17a-k are repaired in /repo: there is NO known failure class any more, every failure of the
+# property is an ordinary violation.  The class names only label the failure text; `doc_traits` only feeds the histogram.
+KEY_OF_CLASS = {}
+ID_OF_CLASS = {}
 
-ID_OF_CLASS = {'dump-explicit-default-delete': 'D17a', 'dump-multiline-eval': 'D17e', 'dump-safe-elided': 'D17f',
-               'dump-default-under-parent': 'D17g', 'dump-kind-without-metadata-form': 'D17i',
-               'dump-shortcut-tag-not-on-stack': 'D17k'}
+NASTY = ['multi\nline', 'back\\slash', "it's", 'say "hi"', 'both \' and "', 'key: value', 'a #comment', ' lead', 'trail ', 'caf\u00e9', '\u2713 ok', 'tab\there',
+         '- dash', '? q', '[x', '{y', '*star', '&amp', '!bang', '|pipe', '>gt', '%pct', '@at', '`tick', 'null', 'true', '1.5', '007', '1e3', '~', '', 'x: y\n# z']
+NASTY_EVAL = ['T("a: b", \'c #d\')', 'q = "x\\\\y"\nT(q)', "T('it\\'s')", 'T("caf\u00e9")', 'T(a)  # trailing', 'T( "{}: {}".format(1, 2) )']
+NASTY_XREF = ['a', 'b.c', 'x[0]']
+
+def spice_strings(rng, raw, p):
+    """replace some string scalars and !eval texts by strings that need quoting"""
+    def go(n):
+        if 's' in n:
+            s = n['s']
+            k = tkind(n)
+            if 'l' in s and isinstance(sc_py(s['l']), str) and k in (None, 'plain') and rng.random() < p and not str(s['l']).startswith("f'"):
+                return dict(n, s={'l': rng.choice(NASTY)})
+            if 'x' in s and k == 'eval' and rng.random() < p:
+                return dict(n, s={'x': rng.choice(NASTY_EVAL)})
+            return n
+        if 'q' in n:
+            return dict(n, q=[go(c) for c in n['q']])
+        return dict(n, m=[[k, go(c)] for k, c in n['m']])
+    return go(raw)
 
 def first_field(d):
     """the attribute name at which a first_diff text points"""
@@ -150,12 +161,12 @@ class C18(Prop):
     STYLES = [('flow', 0, 0), ('block', 0, 0), ('flow', 1, 1), ('block', 1, 0)]
     RULE = ('one document over the full tag vocabulary (merge-control tags, metadata, !null and every node kind: gen_full) plus a merge '
             'sequence of 1-2 further documents derived from it; the document is dumped, re-parsed and dumped again, and substituted by '
-            'its dump at every position of the sequence. The first 60% of the cases avoid the known limitations of the dumper '
-            '(KEY_OF_CLASS traits), the rest is unrestricted. non-trivial = the document has a tag; distinct by SHA-1')
+            'its dump at every position of the sequence and re-parsed from another file name; a fraction of the string scalars and '
+            'of the !eval / !xref texts is replaced by strings that need quoting (newline, backslash, both quote kinds, ": ", " #", '
+            'non-ASCII). non-trivial = the document has a tag; distinct by SHA-1')
     ASSUMPTIONS = ['YAML text emission / scanning is PyYAML; the model starts at the representation tree',
                    'source_file and idx of re-parsed nodes are not compared',
-                   'failures inside the classes D17a, e, f, g, i, k are attributed to the recorded findings only when the '
-                   'shrunk document still has the structural trait of that class']
+                   'no failure class is attributed to a recorded finding: the findings D17a-k are repaired, their witnesses are regression cases']
 
     def corpus(self):
         def D(raw, *seq, **kw):
@@ -171,6 +182,10 @@ class C18(Prop):
             D(M({'a': Q([S('x'), S('y', kw={'prio': -1})], tag={'k': 'path', 'f': ''}), 'b': S('z', tag={'k': 'path', 'f': ''})}, kw={'prio': 1})),
             dict(D(M({'a': S(1)})), doc={'raw': M({'p': Q([S('d'), S('f.txt')], tag={'k': 'path', 'f': ''})}), 'src': '/cfg/sub/main.yaml'}),
             W(D(M({'a': Stext('q = 1\nT(q)', 'eval')}))),   # D17e
+            D(M({'a': Stext('T("it\'s", \'q"\', "a: b #c", "x\\\\y")', 'eval'), 'b': S('multi\nline: x # y', kw={'prio': 1}), 'c': S('caf\u00e9 \u2713', kw={'del': True}),
+               'd': Stext('a.b', 'xref', kw={'prio': -1}), 'e': S("both ' and \"", kw={'md': [['k', 'v\nw']]})})),
+            D(M({'a': Q([S(5, kw={'del': False})]), 'b': Q([Q([S(1, kw={'del': False, 'prio': -1})])])}), M({'a': Q([S(7)])})),   # explicit !merge on a scalar below a list (repaired f90f73c: must pass)
+            D(M({'x': M({'f': M({'b': M({'c': S(1)}, kw={'del': False})}, tag={'k': 'call', 'f': 'rec.f'})}, kw={'del': False})})),   # explicit !merge below a function node below !merge (repaired f90f73c: must pass)
             W(dict(D(M({'a': S(5, kw={'safe': False})})), doc={'raw': M({'a': S(5, kw={'safe': False})}), 'safe': False})),                  # D17f
             W(D(M({'x': M({'a': M({'p': S(1)}, kw={'del': False})}, kw={'del': True})}), M({'x': M({'a': M({'q': S(2)})})}))),             # D17g default under parent
             D(M({'a': Stext("f'{b}'", 'fstr'), 'b': S(1)})),                                                                               # D17h (repaired: must pass)
@@ -183,22 +198,14 @@ class C18(Prop):
                                                     'r': Q([S('g')], tag={'k': 'path', 'f': 'file'}), 's': Q([], tag={'k': 'path', 'f': 'parent(2)'})}), 'src': '/cfg/sub/main.yaml'}),
         ]
 
-    def clean(self, doc):
-        return not (doc_traits(doc) & set(KEY_OF_CLASS.values()))
-
     def gen_cases(self, rng, n, tier):
         out = []
-        n_clean = int(n * 0.6)
-        tries = 0
-        while len(out) < n and tries < n * 40:
-            tries += 1
-            want_clean = len(out) < n_clean
+        for _ in range(n):
             doc = GF.gen_full_doc(rng, depth=3, p_tag=0.35, p_extra=0.2, allow_premerge=True, allow_include=False)
             if rng.random() < 0.7:
                 doc.pop('src', None)
-            if want_clean != self.clean(doc):
-                if want_clean or rng.random() < 0.5:
-                    continue
+            if rng.random() < 0.35:
+                doc = dict(doc, raw=spice_strings(rng, doc['raw'], 0.3))
             seq = []
             for _ in range(rng.choice([1, 1, 2])):
                 base = doc['raw']
@@ -297,19 +304,10 @@ class C18(Prop):
         d = first_diff(io['t'], m['tree'])
         if d:
             return 'parsed tree: ' + d
-        if 'err' in m['dump']:
-            cls = m['dump']['err']
-            if cls == 'noMetadataForm':
-                return None if 'reparse_err' in io else f'model: dump is not re-parseable ({cls}), implementation: {json.dumps({k: v for k, v in io.items() if k.endswith("err")}) or "re-parsed it"}'
-            return f'model: unknown dump error {cls}'
         if 'dump_err' in io:
             return 'implementation: dump raises ' + io['dump_err'] + ', model: it does not'
         if 'reparse_err' in io:
-            if 'escaped-string' in doc_traits(case['doc']):
-                return 'SKIP'     # text emission of escaped strings is not modelled
             return 'implementation: the dump is not re-parseable (' + io['reparse_err'][:80] + '), model: it is'
-        if 'escaped-string' in doc_traits(case['doc']):
-            return 'SKIP'
         if 'err' in m.get('tree2', {}):
             return 'model: re-parse fails with ' + json.dumps(m['tree2']) + ', implementation re-parsed'
         ign = lambda x: mask_src(x)
@@ -384,8 +382,6 @@ class C18(Prop):
         if fld == 'k' and a != b and '"fstr"' in json.dumps(a) and '"fstr"' not in json.dumps(b): return 'dump-fstr-as-eval'
         if fld == 'v' and 'escaped-string' in tr: return 'dump-multiline-eval'
         if fld == 'eSafe' and 'safe-equals-source-default' in tr: return 'dump-safe-elided'
-        if fld in ('eDel', 'eNew', 'ePrio') and 'default-flag' in tr: return 'dump-default-under-parent'
-        if fld in ('eDel', 'eNew', 'eSafe') and 'shortcut-stack' in tr: return 'dump-shortcut-tag-not-on-stack'
         return 'reparsed-tree-differs'
 
     def split_failures(self, case, io):
